@@ -77,6 +77,12 @@ func driveC13Cold(c *Ctx) {
 			opts.TypeSchemas[TSTypes[tn]] = &jsonschema.Schema{Type: "string", Title: fmt.Sprintf("cold-override-%s-%d", tn, i)}
 		}
 	}
+	ropts := make([]*jsonschema.ResolveOptions, len(w.schemas)) // shared by every Resolve of a schema that needs no Loader
+	for i, s := range w.schemas {
+		if w.loaderFor(s) == nil {
+			ropts[i] = &jsonschema.ResolveOptions{BaseURI: s.Base}
+		}
+	}
 	exec := func(op coldOp) string {
 		s := w.schemas[op.S]
 		inst := func(i int) any { return s.Insts[i%len(s.Insts)] }
@@ -86,7 +92,11 @@ func driveC13Cold(c *Ctx) {
 			if err := json.Unmarshal([]byte(s.Text), &sch); err != nil {
 				return "unmarshal-err"
 			}
-			res, err := sch.Resolve(&jsonschema.ResolveOptions{BaseURI: s.Base, Loader: w.loaderFor(s)})
+			ro := ropts[op.S]
+			if ro == nil || op.J%3 == 0 {
+				ro = &jsonschema.ResolveOptions{BaseURI: s.Base, Loader: w.loaderFor(s)}
+			}
+			res, err := sch.Resolve(ro)
 			if err != nil {
 				return "resolve-err"
 			}
